@@ -398,7 +398,7 @@ theorem exec_step (hp : progWF prog = true) (hf : FuncIntro P prog) (f : Nat) (i
       · exact Good.ok ⟨hrest, ⟨hs.heap, hs.scopes, hs.loops⟩, HeapLe.refl _⟩
     | funcDef m =>
       simp only [exec]
-      exact Good.tagOut (execFuncDef_good P hf hrest hs)
+      exact Good.tagOut (execFuncDef_good P hf hsuf hs)
     | loop m =>
       simp only [exec]
       refine Good.ok ⟨hrest, ⟨hs.heap, hs.scopes, ?_⟩, HeapLe.refl _⟩
@@ -497,7 +497,7 @@ end
     `built_ins.rs` and `mark_sweep.rs`) -/
 theorem run_never_panics (prog : List Stmt) (hp : progWF prog = true) (g : GcMode) (f k : Nat) (w : World) (p : String) :
     runLoop prog g f k prog (St.init w) ≠ .panic p := by
-  have := runLoop_good (fun _ _ => True) prog hp (fun _ _ _ _ _ _ _ _ _ => trivial) g f k prog (St.init w)
+  have := runLoop_good (fun _ _ => True) prog hp (fun _ _ _ _ _ _ _ _ _ _ => trivial) g f k prog (St.init w)
     (IsSuffixOf.refl _) (stOK_init _ prog w)
   intro h; rw [h] at this; exact this
 end Pakhi
